@@ -84,3 +84,15 @@ def concrete_bool(b) -> bool:
     if b:
         return True
     return False
+
+
+def untraced():
+    """Context manager: CrossHair's tracing suspended (plain CPython speed).  ONLY for code that handles concrete data:
+    every symbolic selector must have been made concrete first (concrete_int / pick / concrete_bool).  No-op outside
+    CrossHair (replay, self-test)."""
+    import contextlib
+    try:
+        from crosshair.tracers import NoTracing, is_tracing
+    except ImportError:
+        return contextlib.nullcontext()
+    return NoTracing() if is_tracing() else contextlib.nullcontext()
